@@ -1428,6 +1428,13 @@ def gen_serial(seed, tier, focus="C13"):
         ops[0] = ["create", ch.pick(W, "big-csize", [9000, 13000]), ops[0][2]]
         faults = [["error", srv, "slot_readv", ch.pick("faults", ("after-map-nth", srv), [2, 2, 3]), 1.0]
                   for srv in ch.sample("faults", "after-map-srvs", range(cfg["nservers"]), max(1, cfg["nservers"] - ch.randint("faults", "after-map-keep", 0, 2)))]
+    if ch.chance("faults", "foreign", 0.3):
+        # another client holding the same write cap edits the object while this client's operations are queued: modify()
+        # -based operations then meet UncoordinatedWriteError and take their back-off-and-retry path, which must stay
+        # inside the operation's turn (the foreign edits only ever add their own marker / their own child name)
+        cfg["foreign"] = [[ch.pick("faults", ("foreign-start", j), [0.0, 0.0005, 0.002, 0.006, 0.02, 0.08]), ch.randint("faults", ("foreign-pat", j), 1, 1 << 30)]
+                          for j in range(ch.randint("faults", "nforeign", 1, 3))]
+        cfg["net"]["jitter"] = ch.pick("config", "jitter-foreign", [0.005, 0.05, 0.05])
     return {"engine": "mutsim", "profile": "serial", "focus": "C13", "seed": seed, "cfg": cfg, "ops": ops, "faults": faults}
 
 
@@ -1455,7 +1462,11 @@ def exec_serial(case):
     reqno = [0]
     requests = []       # [request index, storage index, cb name]
 
+    foreign_ids = set()
+
     def ds_wrapper(self, cb, *a, **kw):
+        if id(self) in foreign_ids:
+            return orig_ds(self, cb, *a, **kw)
         reqno[0] += 1
         req = reqno[0]
         requests.append([req, self.get_storage_index(), getattr(cb, "__name__", "?")])
@@ -1514,9 +1525,29 @@ def exec_serial(case):
             kind, srv, meth, nth, secs = fl
             if srv < len(g.servers):
                 g.net.add_fault({"kind": kind, "callee": g.servers[srv].name, "caller": c.sim_name, "method": meth, "nth": nth, "secs": secs})
-        faultfree = not case.get("faults")
+        faultfree = not case.get("faults") and not cfg.get("foreign")
         results = []
         tokens = []
+        if cfg.get("foreign"):
+            c2 = g.add_client(k=k, happy=1, n=n, fmt=cfg["fmt"])
+            node2 = c2.create_node_from_uri(cap)
+            foreign_ids.add(id(node2._node if isdir else node2))
+            foreign_keep = [node2]
+
+            def foreign_edit(j, pat):
+                probe("foreign-edit-started")
+                if isdir:
+                    d_ = node2.set_uri(u"foreign%d" % j, b"URI:LIT:" + base32.b2a(b"f%d" % pat), b"URI:LIT:" + base32.b2a(b"f%d" % pat))
+                else:
+                    tok_ = b"|F%d" % j
+                    d_ = node2.modify(lambda old, servermap, first_time, tok_=tok_: old if tok_ in old else old + tok_)
+                d_.addCallbacks(lambda r: probe("foreign-edit-ok"), lambda f: probe("foreign-edit-err-" + err_name(f)))
+            for j, (start_, pat_) in enumerate(cfg["foreign"]):
+                if start_:
+                    dc = R.callLater(start_, foreign_edit, j, pat_)
+                    dc.sim_label = "foreign-edit-%d" % j
+                else:
+                    foreign_edit(j, pat_)
 
         def obtain(shape):
             if shape is True:
@@ -1642,7 +1673,7 @@ def exec_serial(case):
                 ok_ = box.get("r", ("?",))[0] == "ok"
                 if kind == "list":
                     if ok_:
-                        got_names = set(box["r"][1])
+                        got_names = set(nm_ for nm_ in box["r"][1] if not nm_.startswith(u"foreign"))     # (the other client's own children)
                         for nm in sorted(set(poss_) | (got_names - {u"never-there"})):
                             states = poss_.get(nm, {False})
                             if (nm in got_names) not in states:
@@ -1689,6 +1720,12 @@ def exec_serial(case):
                     box = [b for (j, kd, fl, b, nm) in results if j == i][0]
                     if box.get("r", ("?",))[0] == "ok" and i > last_replace and token not in final:
                         bad("lost-update", "modify #%d reported success and no later overwrite was requested, yet its change is missing from the final contents" % i)
+                    # operations run in request order and none starts before the previous one finished: whatever a modify
+                    # requested *before* a successful overwrite changed is gone once that overwrite has completed
+                    later_ok_overwrite = [j for (j, kd, fl, b, nm) in results if j > i and kd == "overwrite" and b.get("r", ("?",))[0] == "ok"]
+                    if later_ok_overwrite and token in final:
+                        bad("earlier-change-after-overwrite", "the change of modify #%d reappears in the final contents although overwrite #%d, requested after it, "
+                            "completed successfully: part of the modify ran after a later operation (foreign edits=%r)" % (i, later_ok_overwrite[0], cfg.get("foreign")))
         return finish(g, viol, probes, case, ("C13",))
     finally:
         for nm, orig in originals.items():
